@@ -37,12 +37,12 @@ type HistCase struct {
 
 var histOps = []string{"reroot", "rerootfirst", "unroot", "midpoint", "outgroup", "prune", "prunekeep", "collapselen", "collapsesup", "collapsedepth",
 	"removeedges", "collapseclade", "resolve", "rotate", "sort", "removesingle", "clone", "subtree", "nniapply", "nniapplyundo", "insertidentical", "graft", "merge",
-	"rename", "renameauto", "renameregexp", "shuffle", "reinit", "clearlen", "clearsup", "clearcomments", "scale", "round", "addcomment", "editcomment", "resolvenamed", "nnihold", "nniundoheld"}
+	"rename", "renameauto", "renameregexp", "shuffle", "reinit", "clearlen", "clearsup", "clearcomments", "scale", "round", "addcomment", "editcomment", "resolvenamed", "nnihold", "nniundoheld", "insertidentical1"}
 
 // structure-changing operations (for the non-triviality rule)
 var structOps = map[string]bool{"reroot": true, "rerootfirst": true, "unroot": true, "midpoint": true, "outgroup": true, "prune": true, "prunekeep": true,
 	"collapselen": true, "collapsesup": true, "collapsedepth": true, "removeedges": true, "collapseclade": true, "resolve": true, "rotate": true, "sort": true,
-	"removesingle": true, "subtree": true, "resolvenamed": true, "nniapply": true, "insertidentical": true, "graft": true, "merge": true, "shuffle": true}
+	"removesingle": true, "subtree": true, "resolvenamed": true, "nniapply": true, "insertidentical": true, "insertidentical1": true, "graft": true, "merge": true, "shuffle": true}
 
 func genTreeText(rt *rapid.T, prefix string, minTips, maxTips int, comments bool) string {
 	n := drawTaxa(rt, minTips, maxTips)
@@ -143,6 +143,8 @@ type histState struct {
 	held           tree.Rearrangement // an applied NNI kept by the caller, undone by a later step
 	heldSteps      int
 	freshIndex     bool // the indexes of this tree are known to be current (C15: copy of an indexed tree, not edited yet)
+	ranFresh       bool // the last step relied on the tip index as it was (no re-index in front of it)
+	targetExisted  bool // the tip the last step addressed by name was a tip of the tree (found by traversal)
 }
 
 func sortedTipNames(t *tree.Tree) []string {
@@ -208,6 +210,7 @@ func applyOp(st *histState, op HOp) (desc string, err error) {
 	st.added, st.removed, st.groups = nil, nil, nil
 	fresh := st.freshIndex
 	st.freshIndex = false
+	st.ranFresh, st.targetExisted = false, false
 	// a held NNI stays valid only across steps that keep every node and branch in place
 	if st.held != nil && !keepsTopology[op.Op] {
 		st.held = nil
@@ -399,6 +402,7 @@ func applyOp(st *histState, op HOp) (desc string, err error) {
 				return "ReinitIndexes", e
 			}
 		}
+		st.ranFresh, st.targetExisted = fresh, true
 		old := pickSubset(r, tips, 1, 2)
 		var groups [][]string
 		for _, o := range old {
@@ -420,20 +424,58 @@ func applyOp(st *histState, op HOp) (desc string, err error) {
 		}
 		st.groups = groups
 		return fmt.Sprintf("InsertIdenticalTips(%v)", groups), t.InsertIdenticalTips(groups)
+	case "insertidentical1":
+		// the single-tip function: it keeps the tip index up to date by itself (its documentation says so)
+		if !fresh {
+			if e := t.ReinitIndexes(); e != nil {
+				return "ReinitIndexes", e
+			}
+		}
+		model := tips[op.A%len(tips)]
+		var mn *tree.Node
+		for _, x := range t.Tips() {
+			if x.Name() == model {
+				mn = x
+			}
+		}
+		if mn == nil {
+			return opSkip, nil
+		}
+		g := []string{model}
+		for k := 0; k <= op.B%2; k++ {
+			st.serial++
+			name := fmt.Sprintf("N%d", st.serial)
+			if _, e := t.InsertIdenticalTip(mn, name); e != nil {
+				return fmt.Sprintf("InsertIdenticalTip(%s,%s)", model, name), e
+			}
+			g = append(g, name)
+			st.added = append(st.added, name)
+		}
+		st.groups = [][]string{g}
+		st.freshIndex = true
+		return fmt.Sprintf("InsertIdenticalTip x%d (%v)", len(g)-1, g), nil
 	case "graft":
 		if !fresh { // a tree whose indexes are known to be current is edited as it is
 			if e := t.ReinitIndexes(); e != nil {
 				return "ReinitIndexes", e
 			}
 		}
+		st.ranFresh = fresh
 		st.serial++
-		g := mustParse(fmt.Sprintf("((G%da:0.5,G%db:0.25):0.125,G%dc:1);", st.serial, st.serial, st.serial))
-		if op.B%3 == 0 {
-			g = mustParse(fmt.Sprintf("(G%da:0.5,G%db:0.25,(G%dc:1,G%dd:0.75)0.5:0.5);", st.serial, st.serial, st.serial, st.serial))
-		}
 		tip := tips[op.A%len(tips)]
+		st.targetExisted = true
+		g := mustParse(fmt.Sprintf("((G%da:0.5,G%db:0.25):0.125,G%dc:1);", st.serial, st.serial, st.serial))
+		switch op.B % 4 {
+		case 0:
+			g = mustParse(fmt.Sprintf("(G%da:0.5,G%db:0.25,(G%dc:1,G%dd:0.75)0.5:0.5);", st.serial, st.serial, st.serial, st.serial))
+		case 1:
+			// the tree put in place of the tip has itself a tip of that name
+			g = mustParse(fmt.Sprintf("((%s:0.5,G%db:0.25):0.125,G%dc:1);", tip, st.serial, st.serial))
+		}
 		st.added, st.removed = sortedTipNames(g), []string{tip}
-		return fmt.Sprintf("GraftTreeOnTip(%s <- %s)", tip, g.Newick()), t.GraftTreeOnTip(tip, g)
+		e := t.GraftTreeOnTip(tip, g)
+		st.freshIndex = e == nil // it ends with UpdateTipIndex: the names are current for the next step
+		return fmt.Sprintf("GraftTreeOnTip(%s <- %s)", tip, g.Newick()), e
 	case "merge":
 		if !t.Rooted() {
 			return opSkip, nil
